@@ -37,19 +37,28 @@ Proof. exact write_datagrams_fit. Qed.
 Print Assumptions C15_every_datagram_fits.
 
 (* findings, as refutations of the full statement on the faithful model *)
-Theorem C15_empty_writeto_refuted : forall pmtu m, write_datagrams pmtu m 0 = [].       (* K5 *)
-Proof. exact empty_write_no_datagram. Qed.
-Print Assumptions C15_empty_writeto_refuted.
+Theorem C15_empty_writeto_one_datagram : forall pmtu m, write_datagrams pmtu m 0 = [record_len m 0].   (* K5, fixed *)
+Proof. exact empty_write_one_datagram. Qed.
+Print Assumptions C15_empty_writeto_one_datagram.
 
 Theorem C15_fits_cbc_refuted_before_fix :                                                (* F9, fixed *)
   exists pmtu n, 0 < n <= max_payload_old pmtu MCbc /\ eff_pmtu pmtu < record_len MCbc n.
 Proof. exact old_cbc_bound_refuted. Qed.
 Print Assumptions C15_fits_cbc_refuted_before_fix.
 
-Theorem C15_flight_refuted :                                                             (* K3 *)
+(* a buffered flight (and every retransmission of it) is packed at record boundaries into
+   datagrams none of which exceeds the path MTU; the records leave complete and in order *)
+Theorem C15_flight_fits : forall pmtu recs,
+  Forall (fun r => 0 < r <= eff_pmtu pmtu) recs ->
+  Forall (fun d => 0 < d <= eff_pmtu pmtu) (flight_datagrams pmtu recs) /\
+  fold_right Z.add 0 (flight_datagrams pmtu recs) = fold_right Z.add 0 recs.
+Proof. exact flight_fits. Qed.
+Print Assumptions C15_flight_fits.
+
+Theorem C15_flight_refuted_before_fix :                                                  (* K3, fixed *)
   exists pmtu recs, Forall (fun r => r <= eff_pmtu pmtu) recs /\ eff_pmtu pmtu < flush_datagram recs.
 Proof. exact flight_exceeds_pmtu. Qed.
-Print Assumptions C15_flight_refuted.
+Print Assumptions C15_flight_refuted_before_fix.
 
 Example C15_example : max_payload 1400 MCbc = 1327 /\ record_len MCbc 1327 = 1389 /\ min_pmtu MCbc = 77.
 Proof. vm_compute. repeat split; reflexivity. Qed.
